@@ -197,6 +197,9 @@ pub struct Col {
     pub pat_dict: bool,
     /// every value (visible or hidden) inside the column's range is ASCII
     pub ascii: bool,
+    /// physical content that no logical row shows and that is *not* taken from the column's own table:
+    /// (cause class, bytes). Used by the substring oracle to classify errors caused by invisible values.
+    pub foreign: Option<(&'static str, Vec<u8>)>,
 }
 impl Col {
     pub fn len(&self) -> usize {
@@ -270,7 +273,7 @@ pub fn make_col_j(kind: Kind, dict: Dict, layout: Layout, table: &[Vec<u8>], sel
             let arr = make_plain(kind, &vals, if layout.nulls() { Some(&valid) } else { None });
             let arr = if layout.sliced() { arr.slice(pre, n) } else { arr };
             assert_eq!(arr.len(), n);
-            Col { name, kind, dict, layout, arr, rows, pat_dict, ascii: false }
+            Col { name, kind, dict, layout, arr, rows, pat_dict, ascii: false, foreign: None }
         }
         Dict::I8 | Dict::I32 => {
             // values: sel entries, then one unreferenced junk value, then (with nulls) a null value
@@ -314,7 +317,7 @@ pub fn make_col_j(kind: Kind, dict: Dict, layout: Layout, table: &[Vec<u8>], sel
             };
             let arr = if layout.sliced() { arr.slice(pre, m) } else { arr };
             assert_eq!(arr.len(), m);
-            Col { name, kind, dict, layout, arr, rows, pat_dict, ascii: false }
+            Col { name, kind, dict, layout, arr, rows, pat_dict, ascii: false, foreign: None }
         }
     }
 }
